@@ -65,6 +65,8 @@ def run(ctx):
                 bad = ("conn:loss-or-reorder", "bytes lost / reordered without a short-buffer report: %s -> %s" % (i, o))
             elif not o["end"]:
                 bad = ("conn:no-eof", "ended connection did not report an error: %s" % i)
+            elif not o["deadline_ok"]:
+                bad = ("conn:deadline-loss", "bytes were lost when reads with an expired deadline were interleaved with normal reads (%d of %d bytes arrived, %d deadline errors): %s" % (o["deadline_got"], o["len"], o["deadline_errs"], i))
         if bad:
             ctx.violation(bad[0], bad[1], {"case": c, "observed": o})
     if prop == "C07":
